@@ -33,7 +33,7 @@ RULE = ('directed corpus (docstring examples; every one of the 35 sanitize keys 
         'level; aliasing; masks) then seeded random nested mappings of depth <= 4, width <= 5. '
         'non-trivial = a non-mapping argument, or a mapping with at least one sensitive str key, nested '
         'mapping or str value; distinct by (spec, secret, call style)')
-REQUIRED_CLAUSES = ['key-list-cross-check', 'result-new-plain-dict', 'same-keys',
+REQUIRED_CLAUSES = ['documented-keyword-call', 'key-list-cross-check', 'result-new-plain-dict', 'same-keys',
                     'sensitive-key-masked', 'mapping-under-sensitive-key-recursed',
                     'nested-mapping-processed', 'non-dict-mapping-nested',
                     'string-through-mask_password', 'string-changed-by-mask_password',
@@ -402,6 +402,8 @@ def _carries_key_text(k):
 
 def evaluate(ctx, case):
     from oslo_utils import strutils
+    from vlib import callstyle
+    strutils = callstyle.proxy(strutils)
     kind = case['kind']
     if kind == 'keylist':
         ctx.case(('keylist',))
